@@ -359,11 +359,184 @@ func renamed(a aut, sts []automata.State, img []int) aut {
 	return b
 }
 
+// ---------------------------------------------------------------- independence of results
+
+// mutable wraps an NFA or a DFA for the aliasing probes: snapshot = Accept vector + structure.
+type mutable interface {
+	snap(ws []automata.String) string
+	extend()
+}
+
+type nfaW struct{ n *automata.NFA }
+type dfaW struct{ d *automata.DFA }
+
+func (x nfaW) snap(ws []automata.String) string { return vec(x.n, ws) + "#" + dumpNFA(x.n) }
+func (x dfaW) snap(ws []automata.String) string { return vec(x.d, ws) + "#" + dumpDFA(x.d) }
+
+func pick3(n int) []int {
+	if n == 0 {
+		return nil
+	}
+	m := map[int]bool{0: true, n / 2: true, n - 1: true}
+	var r []int
+	for i := 0; i < n; i++ {
+		if m[i] {
+			r = append(r, i)
+		}
+	}
+	return r
+}
+
+// extend adds transitions on (state, symbol) pairs that already exist (towards the final states and
+// a new state), on a new symbol and from a new state: everything an object that shares a row or
+// a target set with another automaton would leak into it.
+func (x nfaW) extend() {
+	n := x.n
+	var trs []*automata.Transition[[]automata.State]
+	for t := range n.Transitions() {
+		trs = append(trs, t)
+	}
+	var fin []automata.State
+	for f := range n.Final.All() {
+		fin = append(fin, f)
+	}
+	mx := automata.State(0)
+	for _, s := range n.States() {
+		if s > mx {
+			mx = s
+		}
+	}
+	for _, i := range pick3(len(trs)) {
+		n.Add(trs[i].State, trs[i].Symbol, append(append([]automata.State{}, fin...), mx+1+automata.State(i)))
+	}
+	n.Add(n.Start, 'a', fin)
+	n.Add(n.Start, 'c', []automata.State{n.Start})
+	n.Add(mx+50, 'b', []automata.State{n.Start})
+}
+
+func (x dfaW) extend() {
+	d := x.d
+	var trs []*automata.Transition[automata.State]
+	for t := range d.Transitions() {
+		trs = append(trs, t)
+	}
+	var fin []automata.State
+	for f := range d.Final.All() {
+		fin = append(fin, f)
+	}
+	mx := automata.State(0)
+	for _, s := range d.States() {
+		if s > mx {
+			mx = s
+		}
+	}
+	for _, i := range pick3(len(trs)) {
+		tgt := mx + 1 + automata.State(i)
+		if len(fin) > 0 && fin[0] != trs[i].Next {
+			tgt = fin[0]
+		}
+		d.Add(trs[i].State, trs[i].Symbol, tgt)
+	}
+	if len(fin) > 0 && d.Next(d.Start, 'a') == -1 {
+		d.Add(d.Start, 'a', fin[0])
+	}
+	d.Add(d.Start, 'c', d.Start)
+	d.Add(mx+50, 'b', d.Start)
+}
+
+// aliasOp: "alias <op> i j..": run <op>, then extend the result and re-read every operand
+// (Accept vector and structure must not move), then extend each operand in turn and re-read the
+// result.  Returns a=ok or a=<what changed>.
+func aliasOp(kind string, ws []automata.String, auts []aut, f []string) string {
+	if len(f) < 2 {
+		return "a=ok"
+	}
+	ix := idxs(f[1:])
+	for _, i := range ix {
+		if i < 0 || i >= len(auts) {
+			return "a=ok"
+		}
+	}
+	var ops []mutable
+	var res mutable
+	if kind == "N" {
+		ns := make([]*automata.NFA, len(ix))
+		for k, i := range ix {
+			ns[k] = auts[i].nfa()
+			ops = append(ops, nfaW{ns[k]})
+		}
+		switch f[0] {
+		case "clone":
+			res = nfaW{ns[0].Clone()}
+		case "todfa":
+			res = dfaW{ns[0].ToDFA()}
+		case "star":
+			res = nfaW{ns[0].Star()}
+		case "union":
+			res = nfaW{ns[0].Union(ns[1:]...)}
+		case "concat":
+			res = nfaW{ns[0].Concat(ns[1:]...)}
+		default:
+			return "a=ok"
+		}
+	} else {
+		ds := make([]*automata.DFA, len(ix))
+		for k, i := range ix {
+			ds[k] = auts[i].dfa()
+			ops = append(ops, dfaW{ds[k]})
+		}
+		switch f[0] {
+		case "clone":
+			res = dfaW{ds[0].Clone()}
+		case "tonfa":
+			res = nfaW{ds[0].ToNFA()}
+		case "min":
+			res = dfaW{ds[0].Minimize()}
+		case "elim":
+			res = dfaW{ds[0].EliminateDeadStates()}
+		case "reindex":
+			res = dfaW{ds[0].ReindexStates()}
+		case "combine":
+			r, _ := automata.CombineDFA(ds...)
+			res = dfaW{r}
+		default:
+			return "a=ok"
+		}
+	}
+	before := make([]string, len(ops))
+	for k, o := range ops {
+		before[k] = o.snap(ws)
+	}
+	res.extend()
+	for k, o := range ops {
+		if o.snap(ws) != before[k] {
+			return fmt.Sprintf("a=operand-%d-changed-when-the-result-was-extended", k)
+		}
+	}
+	for k, o := range ops {
+		rs := res.snap(ws)
+		o.extend()
+		if res.snap(ws) != rs {
+			return fmt.Sprintf("a=result-changed-when-operand-%d-was-extended", k)
+		}
+		for j, p := range ops {
+			if j != k && p.snap(ws) != before[j] {
+				return fmt.Sprintf("a=operand-%d-changed-when-operand-%d-was-extended", j, k)
+			}
+		}
+		before[k] = o.snap(ws)
+	}
+	return "a=ok"
+}
+
 // exec runs one op; ovCache holds, per case, the Accept vector of each operand (taken once on a fresh object).
 func exec(ovCache map[int]string, kind string, ws []automata.String, auts []aut, op string) string {
 	f := strings.Fields(op)
 	if len(f) < 2 {
 		return "f"
+	}
+	if f[0] == "alias" {
+		return guarded(func() string { return aliasOp(kind, ws, auts, f[1:]) })
 	}
 	return guarded(func() string {
 		ix := idxs(f[1:])
@@ -662,8 +835,8 @@ func ipow(b, e int) int {
 	return r
 }
 
-var dfaOps = []string{"acc 0", "clone 0", "tonfa 0", "min 0", "elim 0", "reindex 0"}
-var nfaOps = []string{"acc 0", "clone 0", "todfa 0", "star 0"}
+var dfaOps = []string{"acc 0", "clone 0", "tonfa 0", "min 0", "elim 0", "reindex 0", "alias clone 0", "alias tonfa 0"}
+var nfaOps = []string{"acc 0", "clone 0", "todfa 0", "star 0", "alias clone 0", "alias star 0"}
 
 func exhaustive(w *W, r *rng.R, thorough bool) {
 	// DFAs
@@ -913,6 +1086,7 @@ func random(w *W, r *rng.R, cases int) {
 			for i := range as {
 				all += fmt.Sprintf(" %d", i)
 			}
+			ops = append(ops, "alias clone 0", "alias todfa 0", "alias star 0", "alias union"+all, "alias concat"+all)
 			ops = append(ops, "union"+all, "concat"+all)
 			if k >= 2 {
 				ops = append(ops, "concat 1 0", "union 1 1 0")
@@ -943,6 +1117,7 @@ func random(w *W, r *rng.R, cases int) {
 			for i := range as {
 				all += fmt.Sprintf(" %d", i)
 			}
+			ops = append(ops, "alias clone 0", "alias tonfa 0", "alias min 0", "alias elim 0", "alias reindex 0", "alias combine"+all)
 			ops = append(ops, "combine"+all)
 			if k >= 2 {
 				ops = append(ops, "combine 1 0")
@@ -1149,14 +1324,14 @@ func shapes(w *W, r *rng.R, thorough bool) {
 		for i := 0; i < 150; i++ {
 			a := staged(r, true)
 			b := staged(r, true)
-			ops := []string{"acc 0", "todfa 0", "star 0", "clone 0", "union 0 1", "concat 0 1", "todfa 1"}
+			ops := []string{"acc 0", "todfa 0", "star 0", "clone 0", "union 0 1", "concat 0 1", "todfa 1", "alias clone 0", "alias union 0 1", "alias todfa 1"}
 			if len(stateIDs(a, true)) <= 6 {
 				ops = append(ops, renameOp(r, a, 0, true))
 			}
 			runCase(w, "N", "W6", []aut{a, b}, ops)
 			d := staged(r, false)
 			e := staged(r, false)
-			dops := []string{"acc 0", "tonfa 0", "min 0", "elim 0", "reindex 0", "clone 0", "combine 0 1", "combine 1 0"}
+			dops := []string{"acc 0", "tonfa 0", "min 0", "elim 0", "reindex 0", "clone 0", "combine 0 1", "combine 1 0", "alias clone 0", "alias elim 0", "alias reindex 1", "alias min 0"}
 			if len(stateIDs(d, false)) <= 6 {
 				dops = append(dops, renameOp(r, d, 0, false))
 			}
